@@ -60,7 +60,9 @@ TIE = {
     'C10': ['impl_res', 'impl_tree'],
     'C12': ['impl_tree'],
     'C13': ['impl_inv', 'impl_res'],
-    'C14': ['impl_res', 'impl_tree'],
+    # under an injected fault the library may already have moved an old output aside when the call fails:
+    # whether a later call can still reuse it is below the model's abstraction, so mtimes are not compared
+    'C14': ['impl_res'],
     'C15': ['impl_res', 'impl_tree'],
     'C16': ['impl_cache', 'impl_res'],
     'TIE': ['impl_res', 'impl_tree', 'impl_inv', 'impl_cache'],
